@@ -2,7 +2,7 @@
 use crate::core::Case;
 use crate::imp::hex;
 use crate::prog::Walk;
-use crate::refint::{compile, gen_program, run};
+use crate::refint::{compile, gen_program, run, Program, E, S};
 use crate::rng::Rng;
 
 pub fn cases(rng: &mut Rng, tier: &str) -> (Vec<Case>, bool) {
@@ -10,7 +10,7 @@ pub fn cases(rng: &mut Rng, tier: &str) -> (Vec<Case>, bool) {
     let mut cases = vec![];
     for i in 0..n {
         let allow_else_resume = i % 25 == 0;
-        let (prog, feats) = gen_program(rng, allow_else_resume);
+        let (prog, feats) = if i % 12 == 5 { (array_fill_program(rng), vec!["array-fill"]) } else { gen_program(rng, allow_else_resume) };
         let seed = rng.next() % 100000;
         let text = compile(&prog);
         let expected = run(&prog, seed, 2000);
@@ -34,4 +34,46 @@ pub fn cases(rng: &mut Rng, tier: &str) -> (Vec<Case>, bool) {
         cases.push(Case { ops: w.ops, checks, tag: feats.join("+"), nontrivial: prog.len() > 2, show: text.join(" | ") });
     }
     (cases, false)
+}
+
+/// fill every cell of a 1-3 dimensional array (explicit DIM with differing extents, or implicit) with a
+/// distinct value, then print every cell: any stride / aliasing error shows.
+fn array_fill_program(rng: &mut Rng) -> Program {
+    let nd = rng.range(1, 3);
+    let explicit = rng.chance(3, 4);
+    let ext: Vec<usize> = (0..nd).map(|_| if explicit { rng.range(0, 4) } else { 10 }).collect();
+    let vars = ["I", "J", "K"];
+    let idx: Vec<E> = (0..nd).map(|d| E::Var(vars[d].to_string())).collect();
+    let mut val = E::Num(0.0);
+    for d in 0..nd {
+        val = E::Bin("+", Box::new(E::Bin("*", Box::new(val), Box::new(E::Num(20.0)))), Box::new(E::Var(vars[d].to_string())));
+    }
+    let mut prog: Program = vec![];
+    let mut n = 10;
+    if explicit {
+        prog.push((n, vec![S::Dim("C".into(), ext.iter().map(|e| E::Num(*e as f64)).collect())]));
+        n += 10;
+    }
+    for pass in 0..2 {
+        for d in 0..nd {
+            prog.push((n, vec![S::For(vars[d].to_string(), E::Num(0.0), E::Num(if explicit { ext[d] as f64 } else { rng.pick(&[2.0, 10.0]) }), None)]));
+            n += 10;
+        }
+        if pass == 0 {
+            prog.push((n, vec![S::Let("C".into(), Some(idx.clone()), E::Bin("+", Box::new(val.clone()), Box::new(E::Num(1.0))))]));
+        } else {
+            prog.push((n, vec![S::Print(vec![(E::Cell("C".into(), idx.clone()), ';')], false)]));
+        }
+        n += 10;
+        for d in (0..nd).rev() {
+            prog.push((n, vec![S::Next(vars[d].to_string())]));
+            n += 10;
+        }
+    }
+    // one step outside: the last index one past its extent is a BAD SUBSCRIPT
+    let mut out_idx: Vec<E> = ext.iter().map(|_| E::Num(0.0)).collect();
+    let last = nd - 1;
+    out_idx[last] = E::Num(ext[last] as f64 + 1.0);
+    prog.push((n, vec![S::Print(vec![(E::Cell("C".into(), out_idx), ';')], false)]));
+    prog
 }
